@@ -114,14 +114,23 @@ struct HTracer : trompeloeil::tracer
 };
 struct STracer
 {
-  explicit STracer(int id_) : id(id_), tr(os) {}
+  // redirect: the stream's buffer is exchanged after the tracer was constructed on the stream; the tracer
+  // writes to the *stream*, so records must arrive in the new buffer
+  explicit STracer(int id_, bool redirect = false) : id(id_), tr(os) { if (redirect) { std::ios& b = os; saved = b.rdbuf(&other); } }
+  ~STracer() { if (saved) { std::ios& b = os; b.rdbuf(saved); } }
   int id;
   std::ostringstream os;
+  std::stringbuf other;
+  std::streambuf* saved = nullptr;
   trompeloeil::stream_tracer tr;
   void drain()
   {
-    std::string s = os.str();
-    if (!s.empty()) { H::emit("TS %d %s", id, H::esc(s).c_str()); os.str(""); }
+    std::string s = saved ? other.str() : os.str();
+    if (!s.empty())
+    {
+      H::emit("TS %d %s", id, H::esc(s).c_str());
+      if (saved) other.str(""); else os.str("");
+    }
   }
 };
 struct TracerRec { int id; HTracer* h; STracer* s; };
@@ -445,7 +454,7 @@ int main()
     else if (op == "tr")
     {
       TracerRec r{I(1), nullptr, nullptr};
-      if (I(2) == 0) r.h = new HTracer(r.id); else r.s = new STracer(r.id);
+      if (I(2) == 0) r.h = new HTracer(r.id); else r.s = new STracer(r.id, I(2) == 2);
       g_tracers.push_back(r);
     }
     else if (op == "rmtr")
